@@ -76,4 +76,65 @@ Section ParseSource.
       cbv zeta. rewrite E, E2.
       split; [split; [discriminate|intros (a' & b' & H); discriminate]|reflexivity].
   Qed.
+
+  (* ---- the whole parser: the model's from_operations_l is the translated pieces put together - split the input
+     (gen_components), check the number of components (gen_dims_ok), run the character step (gen_pstep) over each
+     component from the initial values (gen_pinit), and take the row (x coefficient, y coefficient, constant) *)
+  Fixpoint gen_fold (st : T * T * T * T * option ascii) (l : list ascii) : option (T * T * T * T * option ascii) :=
+    match l with
+    | [] => Some st
+    | c :: r =>
+        let '(tx, ty, sg, k, op) := st in
+        match gen_pstep NN tx ty sg k op c with
+        | Some st' => gen_fold st' r
+        | None => None
+        end
+    end.
+
+  Definition gen_component (l : list ascii) : option (T * T * T) :=
+    match gen_fold (n0, n0, fst (gen_pinit NN), snd (gen_pinit NN), None) l with
+    | Some (tx, ty, _, k, _) => Some (tx, ty, k)
+    | None => None
+    end.
+
+  Lemma pfold_is_gen_fold : forall l (st : pst NN),
+    pfold NN st l =
+    match gen_fold (r_x NN st, r_y NN st, r_sign NN st, r_const NN st, r_op NN st) l with
+    | Some (tx, ty, sg, k, op) => Some (mkPst NN tx ty sg k op)
+    | None => None
+    end.
+  Proof.
+    induction l as [|c l IH]; intros st; cbn [pfold gen_fold].
+    - destruct st; reflexivity.
+    - rewrite pstep_is_source.
+      destruct (gen_pstep NN (r_x NN st) (r_y NN st) (r_sign NN st) (r_const NN st) (r_op NN st) c) as [[[[[tx ty] sg] k] op]|];
+        [|reflexivity].
+      rewrite IH. reflexivity.
+  Qed.
+
+  Lemma parse_component_is_gen : forall l, parse_component NN l = gen_component l.
+  Proof.
+    intros l. unfold parse_component, gen_component. rewrite pfold_is_gen_fold, pinit_is_source.
+    cbn [r_x r_y r_sign r_const r_op].
+    destruct (gen_fold (n0, n0, fst (gen_pinit NN), snd (gen_pinit NN), None) l) as [[[[[tx ty] sg] k] op]|]; reflexivity.
+  Qed.
+
+  Theorem parser_is_the_source_pieces : forall (l : list ascii),
+    from_operations_l NN l =
+    if gen_dims_ok (N.of_nat (List.length (gen_components l)))
+    then match gen_components l with
+         | [a; b] => match gen_component a, gen_component b with
+                     | Some ra, Some rb => POk ra rb
+                     | _, _ => PErr
+                     end
+         | _ => PErr
+         end
+    else PErr.
+  Proof.
+    intros l. destruct (dims_is_source l) as [[H1 H2] H3]. rewrite components_is_source in *.
+    unfold from_operations_l.
+    destruct (gen_dims_ok (N.of_nat (List.length (split_terminator ","%char (trim_braces l))))) eqn:E.
+    - destruct (H1 eq_refl) as (a & b & ->). rewrite !parse_component_is_gen. reflexivity.
+    - exact (H3 eq_refl).
+  Qed.
 End ParseSource.
